@@ -18,7 +18,7 @@ import numpy as _np
 import z3
 
 from . import core
-from .core import Sym, SymBool, NonFinite, HarnessError, lift, to_real, cur
+from .core import Sym, SymBool, NonFinite, HarnessError, EndPath, lift, to_real, cur
 
 _real_float = float
 
@@ -135,6 +135,19 @@ class RandomStub:
     def seed(self, *a, **k):
         self.calls.append(('seed', a, None))
 
+    def shuffle(self, seq):
+        """in-place uniform shuffle (fork over all orders)"""
+        items = list(seq)
+        n = len(items)
+        idx = list(range(n))
+        order = []
+        for j in range(n):
+            i = self.env.choose(n - j, label=('shuffle', n, j))
+            order.append(idx.pop(i))
+        self.calls.append(('shuffle', n, tuple(order)))
+        for pos, src in enumerate(order):
+            seq[pos] = items[src]
+
     def __getattr__(self, name):
         raise HarnessError(f"random.{name} is not modelled by the RNG stub")
 
@@ -161,6 +174,19 @@ class NpRandomStub:
 
     def seed(self, *a, **k):
         self.calls.append(('seed', a, None))
+
+    def shuffle(self, seq):
+        """in-place uniform shuffle of a mutable sequence (fork over all orders)"""
+        items = list(seq)
+        n = len(items)
+        idx = list(range(n))
+        order = []
+        for j in range(n):
+            i = self.env.choose(n - j, label=('shuffle', n, j))
+            order.append(idx.pop(i))
+        self.calls.append(('shuffle', n, tuple(order)))
+        for pos, src in enumerate(order):
+            seq[pos] = items[src]
 
     def __getattr__(self, name):
         raise HarnessError(f"np.random.{name} is not modelled by the RNG stub")
@@ -416,8 +442,21 @@ class NumpyShim:
     def abs(self, x):
         return abs(x) if isinstance(x, Sym) else _np.abs(x)
 
-    def round(self, x, *a, **k):
-        return x if isinstance(x, Sym) else _np.round(x, *a, **k)
+    def round(self, x, decimals=0, *a, **k):
+        return x.__round__(decimals).as_np() if isinstance(x, Sym) else _np.round(x, decimals, *a, **k)
+
+    def isclose(self, a, b, rtol=1e-05, atol=1e-08, equal_nan=False):
+        """|a - b| <= atol + rtol * |b|  (a symbolic truth value: forks when used in a condition)"""
+        if isinstance(a, NonFinite) or isinstance(b, NonFinite):
+            return False
+        if not isinstance(a, Sym) and not isinstance(b, Sym):
+            return _np.isclose(a, b, rtol=rtol, atol=atol, equal_nan=equal_nan)
+        bound = Fraction(atol) + Fraction(rtol) * abs(b if isinstance(b, Sym) else Fraction(b))
+        diff = a - b if isinstance(a, Sym) else -(b - a)
+        return (diff <= bound) & (diff >= -bound)
+
+    def allclose(self, a, b, rtol=1e-05, atol=1e-08, equal_nan=False):
+        return self.isclose(a, b, rtol, atol, equal_nan)
 
     def isnan(self, x):
         if isinstance(x, NonFinite):
@@ -697,6 +736,15 @@ class UFModel:
             return self._one(x)
         return [self._one(xi) for xi in x]
 
+    # The model function handed to the library is THIS callable.  An estimator-like object also has helper methods with
+    # the usual names; a library that guesses one of them instead of calling the function it was given evaluates another model.
+    def _decoy(self, *a, **k):
+        self.env.fail('model_function_replaced_by_a_guessed_method',
+                      'the library called predict / predict_one / predict_proba(_one) of a callable model object instead of the '
+                      'callable it was given')
+        raise EndPath('decoy method of the model object called')
+    predict = predict_one = predict_proba = predict_proba_one = _decoy
+
     def value(self, x, label='output'):
         """oracle access: M_label(x) without logging"""
         return self._fs[label](*self._args(x), flavor=self.flavor)
@@ -858,7 +906,23 @@ def snapshot_mutable_defaults(prefix=IXAI_PREFIX):
             if inspect.isclass(obj) and obj.__module__ == name:
                 generators += [f"{name}.{obj.__qualname__}.{a}" for a, v in vars(obj).items() if isinstance(v, gen_types)]
 
+    # memoising decorators (functools.lru_cache / cache) keep results - possibly whole library objects - for the life of the process
+    caches = []
+    for name, m in list(sys.modules.items()):
+        if m is None or not (name == prefix or name.startswith(prefix + '.')):
+            continue
+        for attr, obj in list(vars(m).items()):
+            if callable(getattr(obj, 'cache_clear', None)) and getattr(obj, '__module__', name) == name:
+                caches.append((obj, f"{name}.{attr}"))
+            elif inspect.isclass(obj) and obj.__module__ == name:
+                for a, v in list(vars(obj).items()):
+                    v = getattr(v, '__func__', v)
+                    if callable(getattr(v, 'cache_clear', None)):
+                        caches.append((v, f"{name}.{obj.__qualname__}.{a}"))
+
     def reset():
+        for c, _n in caches:
+            c.cache_clear()         # every explored path (and every replay) starts like a fresh interpreter
         for f, d, kd in found:
             if d is not None:
                 f.__defaults__ = copy.deepcopy(d)
@@ -869,4 +933,5 @@ def snapshot_mutable_defaults(prefix=IXAI_PREFIX):
     reset.functions = [f"{f.__module__}.{f.__qualname__}" for f, _d, _k in found]
     reset.shared_containers = [n for _o, _a, _v, n in shared]
     reset.import_time_generators = generators
+    reset.memoised_functions = [n for _c, n in caches]
     return reset
